@@ -295,7 +295,7 @@ func init() {
 		Level: "exploration",
 		Rule: "A reference tree (parent array; LCA by marking ancestors, lineage / clade / taxon-at-rank by walking parent links) is turned into the real obitax.Taxonomy (a) through NewTaxonomy/AddNewTaxa/ReindexParent/AddNewName/AddNewAlias in random insertion order, (b) through synthetic nodes.dmp/names.dmp/merged.dmp loaded by LoadNCBITaxDump, (c) through obigrep -t DIR -r/-i/--require-rank and obiannotate -t DIR --with-taxon-at-rank/--add-lca-in/--taxonomic-path/--taxonomic-rank on FASTA records carrying node ids, merged ids and unknown ids. " +
 			"Exhaustive part: every labelled rooted tree (Pruefer code x root, n^(n-1) trees) with <= 6 (quick) / <= 7 (thorough) nodes through the API and <= 5 / <= 6 nodes through dump files x all ordered pairs (LCA, IsSubCladeOf), all ordered triples (associativity, LCA of the set), all (node, rank label) queries incl. absent labels, all paths, aliases, unknown ids, taxon sets, sequence-level predicates and annotators; one more size (7 / 8 nodes, API only) with all ordered pairs and all paths only. Random part: 9 shapes (recursive, chain, star, caterpillar, binary, broom, preferential, two-chains, deep-bushy) up to 5000 nodes, random taxids, ranks with repeats along a lineage, sampled and structured pairs (with root, with itself, with an ancestor, with the parent). " +
-			"Added later: concurrent sub-check (one taxonomy queried by 2-16 goroutines), slot values that are not taxa, a taxon first entered under the root, indexed, then redefined under its true parent and indexed again. " +
+			"Added later: concurrent sub-check (one taxonomy queried by 2-16 goroutines), slot values that are not taxa, a taxon first entered under the root, indexed, then redefined under its true parent and indexed again. nodes.dmp with a free-text comments column (one line beyond 64 KiB), the auto-correcting IsAValidTaxon predicate applied to several sequences of the same taxid. " +
 			"distinct_nontrivial = distinct enumerated trees with >= 2 nodes + distinct (path relation of the pair, depth class a, depth class b, depth class of the LCA) + distinct rank-query classes, taxon-set classes, (shape, size class) of random trees, and (command option set, record id class, decision) classes of the end-to-end runs",
 		Assume: []string{
 			"a taxonomy is well formed: one root that is its own parent, every parent id defined, distinct taxids, merged ids distinct from taxon ids and pointing to existing taxa, every taxon has a scientific name",
